@@ -307,6 +307,40 @@ func wrapSeed(s *tbin.Shape, n int) *tseed {
 	return &tseed{name: fmt.Sprintf("Root{1:%s} n=%d", s, n), shape: root, val: v, ref: tbin.Bytes(v), idl: tbin.IDL(s, true)}
 }
 
+// longNumberSeeds: Root{1: list<i64>} / list<double> / list<i32> / map<i64,double> with 2000 and 20000 entries of
+// 19-digit integers, 17-digit doubles, 10-digit i32.
+var longSeeds []*tseed
+
+func longNumberSeeds() []*tseed {
+	if longSeeds != nil {
+		return longSeeds
+	}
+	for _, n := range []int{2000, 20000} {
+		mk := func(s *tbin.Shape, v *tbin.Val, what string) {
+			root := tbin.StructS(tbin.SF(1, s))
+			rv := tbin.Struct(tbin.F(1, v))
+			longSeeds = append(longSeeds, &tseed{name: fmt.Sprintf("Root{1:%s} with %d %s", s, n, what), shape: root, val: rv, ref: tbin.Bytes(rv), idl: tbin.IDL(s, true)})
+		}
+		li := tbin.List(tbin.I64)
+		ld := tbin.List(tbin.DOUBLE)
+		l32 := tbin.List(tbin.I32)
+		m := tbin.Map(tbin.I64, tbin.DOUBLE)
+		for i := 0; i < n; i++ {
+			x := int64(-9123456789012345678) + int64(i)
+			li.L = append(li.L, tbin.I64v(x))
+			ld.L = append(ld.L, tbin.Double(-1.2345678901234567e-300*float64(i+1)))
+			l32.L = append(l32.L, tbin.I32v(int32(-2123456789+i)))
+			m.K = append(m.K, tbin.I64v(x))
+			m.L = append(m.L, tbin.Double(1.2345678901234567e+300/float64(i+1)))
+		}
+		mk(tbin.ListS(tbin.Sc(tbin.I64)), li, "19-digit integers")
+		mk(tbin.ListS(tbin.Sc(tbin.DOUBLE)), ld, "17-digit doubles")
+		mk(tbin.ListS(tbin.Sc(tbin.I32)), l32, "10-digit integers")
+		mk(tbin.MapS(tbin.Sc(tbin.I64), tbin.Sc(tbin.DOUBLE)), m, "long keys and values")
+	}
+	return longSeeds
+}
+
 // bareSeed: the value itself as root (NewNode(t, bytes), ReadAny(t), Skip(t) accept any root type).
 func bareSeed(s *tbin.Shape, n int) *tseed {
 	g := &tbin.Gen{}
